@@ -933,6 +933,7 @@ def readonly_input(prog: Program) -> RuleResult:
         n += 1
         construct = f"{key}:{qual}/input-readonly"
         alias: Set[str] = set(in_params)
+        refinements: Set[str] = set()
         changed = True
         while changed:
             changed = False
@@ -941,6 +942,15 @@ def readonly_input(prog: Program) -> RuleResult:
                     nm = node.targets[0].id
                     if nm not in alias and _reaches_input(node.value, alias):
                         alias.add(nm)
+                        changed = True
+                # `for x in <input>.binarize()`: a binary input is yielded as it is, so x may BE the caller's input
+                if isinstance(node, ast.For) and isinstance(node.target, ast.Name) and node.target.id not in alias:
+                    it = node.iter
+                    if isinstance(it, ast.Call) and (dotted(it.func) or "").endswith("tqdm") and it.args:
+                        it = it.args[0]
+                    if isinstance(it, ast.Call) and isinstance(it.func, ast.Attribute) and it.func.attr == "binarize" and _root_name(it.func.value) in alias:
+                        alias.add(node.target.id)
+                        refinements.add(node.target.id)
                         changed = True
         bad = []
         for node in walk_no_nested(fn):
@@ -954,6 +964,9 @@ def readonly_input(prog: Program) -> RuleResult:
                             bad.append(node)
             elif isinstance(node, ast.Call) and isinstance(node.func, ast.Attribute) and node.func.attr in MUTATORS | {"label_internal", "add_feature", "add_child", "detach", "delete", "remove_child"}:
                 if _root_name(node.func.value) in alias:
+                    # (naming the unnamed ancestors of a refinement is the documented exception)
+                    if node.func.attr == "label_internal" and dotted(node.func.value) in refinements:
+                        continue
                     bad.append(node)
         if bad:
             for node in bad:
